@@ -165,6 +165,7 @@ class Rec(dict):
 
 class FastInterp:
     def __init__(self, ctx, fi, cls_info):
+        self.lenient_wraps = set()
         self.ctx = ctx
         self.repo = ctx.repo
         self.fi = fi
@@ -409,6 +410,14 @@ class FastInterp:
                 self.gate = None
                 if st.orelse:
                     self.block(st.orelse)
+            elif isinstance(st, ast.Try) and not st.finalbody and not st.orelse and st.handlers and \
+                    all(len(h.body) == 1 and isinstance(h.body[0], ast.Pass) for h in st.handlers):
+                # `try: x = Enum(x) except ValueError: pass`: a wrap that keeps the raw value when the class rejects it
+                for c in [c for s_ in st.body for c in calls(s_)]:
+                    nm = strip_mod(ap(c.func) or "")
+                    if nm[:1].isupper():
+                        self.lenient_wraps.add(nm)
+                self.block(st.body)
             elif isinstance(st, ast.Return):
                 if isinstance(st.value, ast.Dict):
                     self.ret = st.value
@@ -508,6 +517,7 @@ def run(ctx):
     r4(ctx)
     r5(ctx)
     r6(ctx)
+    r7(ctx)
     repo = ctx.repo
     ctx.rule("C13.R1", "field-by-field agreement of the hand-written reader with the template: same output keys "
                        "in the same wire order, same gate flag, same wire signature")
@@ -601,11 +611,17 @@ def run(ctx):
             strict = evs.ev(strict_node) if strict_node is not None else None
             ff = by_key.get(tf["key"])
             enum_name = strip_mod(src(c.args[0])) if c.args else "?"
-            fast_rejects = ff is not None and enum_name in ff["val"].adapters
+            fast_wraps = ff is not None and enum_name in ff["val"].adapters
+            fast_rejects = fast_wraps and enum_name not in interp.lenient_wraps
             ctx.ob("C13.R2", f"{tf['key']}: template enum adapter rejects no wire value the fast reader accepts",
                    strict is False or (strict is True and fast_rejects), ctx.w(tci.module, c),
                    f"se.IntEnum({enum_name}) is strict={strict!r} here (explicit argument or the constructor's default) while "
                    f"the fast reader {'wraps' if fast_rejects else 'keeps the raw value of'} {tf['key']}")
+            # ... and the other way round (D53): a value the lenient template keeps as a number may not make the fast reader raise
+            ctx.ob("C13.R2", f"{tf['key']}: fast reader rejects no wire value the template enum adapter accepts",
+                   strict is True or not fast_rejects, ctx.w(fi, ff["node"]) if ff is not None else ctx.w(tci.module, c),
+                   f"the fast reader calls {enum_name}(value) outside a `try ... except ValueError: pass`, which raises for every "
+                   f"wire value without a member, while se.IntEnum({enum_name}) is strict={strict!r} and keeps such values as numbers")
     ctx.floor("C13.R2", "se.IntEnum rows in the compressed template", n_enum_rows, 2)
     # every stream position read is delivered to some key (nothing silently skipped -> offsets agree)
     consumed = set(range(interp.pos))
@@ -702,8 +718,13 @@ def run(ctx):
                     for a in c.args:
                         if isinstance(a, ast.Dict):
                             choices = a
-                        if isinstance(a, ast.Lambda) and isinstance(a.body, ast.Attribute):
-                            selector = a.body.attr
+                        if isinstance(a, ast.Lambda) and a.args.args:
+                            # the field of the context the choice is made on: every use of the parameter reads that one field
+                            pn = a.args.args[0].arg
+                            attrs = {x.attr for x in ast.walk(a.body) if isinstance(x, ast.Attribute)
+                                     and isinstance(x.value, ast.Name) and x.value.id == pn}
+                            if len(attrs) == 1:
+                                selector = next(iter(attrs))
         if choices is None or selector is None:
             raise AnalysisError(f"C13.R2: template adapter {cname} for {tf['key']} has no analysable choice table")
         # the fast path must test exactly `<selector value> == <Enum>.<K>`
@@ -1080,3 +1101,43 @@ def _ancestors(n):
     while p is not None:
         yield p
         p = getattr(p, "_parent", None)
+
+
+def r7(ctx):
+    """Display mode (pod=True) decodes se.IntEnum fields to member NAMES.  A ContextAdapter on the template's path whose
+    option table is keyed by the members of such an enum must turn a name back into the member before the lookup, or the
+    display-mode decoder silently falls back to its default codec and shows a different value than the tracker decoded
+    (D53: ObjectStateAdapter keyed on ctx.PCode)."""
+    repo = ctx.repo
+    ctx.rule("C13.R7", "context adapters keyed by enum members look the member up for the plain-data (name) form of the field too")
+    tmod = repo.module(TMPL)
+    n = 0
+    for cname, lst in sorted(repo.classes.items()):
+        for ci in lst:
+            if ci.module is not tmod or not any(c.name == "ContextAdapter" for c in repo.mro(ci)):
+                continue
+            init = ci.methods.get("__init__")
+            if init is None:
+                continue
+            for c in calls(init.node):
+                if not (isinstance(c.func, ast.Attribute) and c.func.attr == "__init__"):
+                    continue
+                lam = next((a for a in c.args if isinstance(a, ast.Lambda)), None)
+                table = next((a for a in c.args if isinstance(a, ast.Dict)), None)
+                if lam is None or table is None:
+                    continue
+                enums = {ap(k.value) for k in table.keys if isinstance(k, ast.Attribute) and ap(k.value)}
+                enums = {e for e in enums if (lambda e_: (lambda c_: c_ is not None and is_enum(repo, c_))(repo.resolve_class(e_, tmod)))(e)}
+                if not enums:
+                    continue
+                n += 1
+                names_handled = any(isinstance(x, ast.Subscript) and ap(x.value) in enums for x in ast.walk(lam.body))
+                ctx.ob("C13.R7", f"{ci.name}: key function maps a member name to the member before the lookup", names_handled,
+                       ctx.w(init, lam), f"the option table is keyed by {sorted(enums)} members, but in plain-data mode the context holds the "
+                       f"member's NAME: `{norm(lam)[:80]}` returns it as it is, no key matches and the default codec is used")
+    ctx.floor("C13.R7", "enum-keyed context adapters in templates.py", n, 1)
+
+
+def is_enum(repo, ci):
+    from ..consteval import is_enum_class
+    return is_enum_class(repo, ci)
